@@ -1,7 +1,10 @@
 package main
 
 import (
+	"bufio"
+	"encoding/json"
 	"fmt"
+	"os"
 	"strconv"
 	"strings"
 
@@ -927,6 +930,51 @@ func genCase(r *hx.Run, rng *gen.Rng, emit func(op string)) {
 	}
 }
 
+// replayOpsFor reads a replay file (JSON {"driver":…, "ops":[…]} as written by ./check, or plain
+// text with one op per line, text after a TAB ignored) and returns its ops if they belong to this
+// stream: comment lines are dropped; a file recorded for the other C15 stream (driver field, or
+// the shape of its init op: C15Run's init carries the first layout `T TREE`) yields no ops.
+func replayOpsFor(path, me string) ([]string, error) {
+	b, err := os.ReadFile(path)
+	if err != nil {
+		return nil, err
+	}
+	var rp struct {
+		Driver string   `json:"driver"`
+		Ops    []string `json:"ops"`
+	}
+	if err := json.Unmarshal(b, &rp); err != nil {
+		sc := bufio.NewScanner(strings.NewReader(string(b)))
+		sc.Buffer(make([]byte, 1<<20), 1<<24)
+		for sc.Scan() {
+			rp.Ops = append(rp.Ops, strings.SplitN(sc.Text(), "\t", 2)[0])
+		}
+	}
+	if rp.Driver != "" && rp.Driver != me {
+		return nil, nil
+	}
+	var ops []string
+	for _, op := range rp.Ops {
+		f := strings.Fields(op)
+		if len(f) == 0 || (strings.HasPrefix(f[0], "#") && f[0] != "#case") {
+			continue
+		}
+		if f[0] == "init" {
+			hasTree := false
+			for _, t := range f {
+				if t == "T" {
+					hasTree = true
+				}
+			}
+			if hasTree != (me == "C15Run") {
+				return nil, nil
+			}
+		}
+		ops = append(ops, op)
+	}
+	return ops, nil
+}
+
 func run(r *hx.Run) error {
 	it := &interp{panics: func(msg string) {
 		if len(msg) > 60 {
@@ -937,7 +985,24 @@ func run(r *hx.Run) error {
 	defer func() { it.s.close() }()
 
 	if r.Replay != "" {
-		return hx.ReplayOps(r, it.exec)
+		ops, err := replayOpsFor(r.Replay, "C15")
+		if err != nil {
+			return err
+		}
+		if len(ops) == 0 {
+			r.Case("replay-of-the-other-stream")
+		}
+		for _, op := range ops {
+			res, ok := it.exec(strings.Fields(op))
+			if !ok {
+				res = "bad-op"
+			}
+			if strings.HasPrefix(op, "#case") {
+				res = "-"
+			}
+			r.Emit(op, res)
+		}
+		return nil
 	}
 
 	emit := func(op string) {
